@@ -114,6 +114,16 @@ def _install_log_format_stub():
     import crosshair.opcode_intercept as oi
     from crosshair.tracers import frame_stack_write, COMPOSITE_TRACER
 
+    class _Blank:
+        def __format__(self, spec):
+            return ""
+
+        def __str__(self):
+            return ""
+
+        __repr__ = __str__
+
+    blank = _Blank()
     lines = log_format_lines()
     orig = oi.FormatValueInterceptor.trace_op
     cache = {}
@@ -126,7 +136,7 @@ def _install_log_format_stub():
         if (rp, frame.f_lineno) in lines:
             flags = oi.frame_op_arg(frame)
             value_idx = -2 if flags == 0x04 else -1
-            frame_stack_write(frame, value_idx, "")
+            frame_stack_write(frame, value_idx, blank)
             return
         return orig(self, frame, codeobj, codenum)
 
